@@ -348,6 +348,9 @@ def check(prop, tier, seed, t0, no_build=False):
         else:
             names = sum((core.theorem_names(m) for m in modules), [])
             nthm = len(names)
+    pre = getattr(mod, "PRECHECK", None)
+    if pre is not None:
+        broken += list(pre(ctx) or [])
     if broken:
         ctx.escalate = True
 
